@@ -401,6 +401,12 @@ class LexicalEnum(Lexical, LangCommonEnum, lexcopy=True):
 
     __hash__ = Lexical.__hash__
 
+    def __setattr__(self, name, value, /):
+        # Members are read-only once the module is initialized.
+        if getattr(LexicalEnum, '_readonly', False):
+            raise Emsg.ReadOnly(self, name)
+        super().__setattr__(name, value)
+
     @classmethod
     def first(cls) -> Self:
         if cls is __class__:
